@@ -90,16 +90,16 @@ def Agree (s : Sig) (P P' : Sem) : Prop := ∀ a : Args, P (a.restrict s) = P' a
 namespace Args
 
 theorem restrict_restrict (a : Args) (s : Sig) : (a.restrict s).restrict s = a.restrict s := by
-  cases s with | mk seats prev max ext =>
+  cases s with | mk seats prev max ext seatsNeeds =>
   cases seats <;> cases prev <;> cases max <;> cases ext <;> simp [restrict]
 
 theorem fits_restrict (a : Args) (s : Sig) : (a.restrict s).fits s = true := by
-  cases s with | mk seats prev max ext =>
+  cases s with | mk seats prev max ext seatsNeeds =>
   cases seats <;> cases prev <;> cases max <;> cases ext <;> simp [restrict, fits]
 
 theorem restrict_of_fits (a : Args) (s : Sig) (h : a.fits s = true) : a.restrict s = a := by
   cases a with | mk votes n prev max pl lv =>
-  cases s with | mk seats sprev smax ext =>
+  cases s with | mk seats sprev smax ext seatsNeeds =>
   cases seats <;> cases sprev <;> cases smax <;> cases ext <;>
     simp_all [restrict, fits, Option.isNone_iff_eq_none]
 
@@ -201,7 +201,7 @@ theorem agree_fixed {sP : Sig} {P P' : Sem} (n : V) (hP : Agree sP P P') (hs : s
       (fixedSeatCountImpl n P) (fixedSeatCountLaw n P') := by
   intro a
   simp only [fixedSeatCountImpl, fixedSeatCountLaw, hP.byHand]
-  cases sP with | mk seats prev max ext =>
+  cases sP with | mk seats prev max ext seatsNeeds =>
   simp at hs; subst hs
   simp [Args.restrict]
 
@@ -209,7 +209,7 @@ theorem agree_preConverted {sP : Sig} {P P' : Sem} (c : V → Except Err V) (hP 
     Agree sP (preConvertedImpl c P) (preConvertedLaw c P') := by
   intro a
   simp only [preConvertedImpl, preConvertedLaw, hP.byHand]
-  cases sP with | mk seats prev max ext =>
+  cases sP with | mk seats prev max ext seatsNeeds =>
   cases seats <;> cases prev <;> cases max <;> cases ext <;> simp [Args.restrict]
 
 theorem agree_postConverted {sP : Sig} {P P' : Sem} (c : V → Except Err V) (hP : Agree sP P P') :
@@ -217,16 +217,21 @@ theorem agree_postConverted {sP : Sig} {P P' : Sem} (c : V → Except Err V) (hP
   intro a
   simp only [postConvertedImpl, postConvertedLaw, hP.byHand]
 
-/-- Conditioned with truthful dispatch flags (`elimPrev`, `evSeats`, `evPrev`) -/
-theorem agree_conditioned {sE sP : Sig} {E E' P P' : Sem} (depth : Nat)
-    (hE : Agree sE E E') (hP : Agree sP P P') :
+/-- Conditioned with truthful dispatch flags (`elimPrev`, `evSeats`, `evOpt`, `evPrev`); `needs` says that the
+    part's seat count is a required argument, `evOpt` is its negation wherever the part takes seats -/
+theorem agree_conditioned {sE sP : Sig} {E E' P P' : Sem} (depth : Nat) (needs evOpt : Bool)
+    (hE : Agree sE E E') (hP : Agree sP P P') (hopt : sP.seats = true → evOpt = !needs) :
     Agree { seats := true, prev := true, max := sP.max, ext := sP.ext }
-      (conditionedImpl sE.prev sP.seats sP.prev E P depth) (conditionedLaw E' P' depth) := by
+      (conditionedImpl sE.prev sP.seats evOpt sP.prev E P depth) (conditionedLaw needs E' P' depth) := by
   intro a
   simp only [conditionedImpl, conditionedLaw, hP.byHand, hE.byHand]
-  cases sP with | mk seats prev max ext =>
-  cases sE with | mk eseats eprev emax eext =>
-  cases seats <;> cases prev <;> cases max <;> cases ext <;> cases eprev <;> simp [Args.restrict]
+  cases sP with | mk seats prev max ext pneeds =>
+  cases sE with | mk eseats eprev emax eext eneeds =>
+  cases seats
+  · cases prev <;> cases max <;> cases ext <;> cases eprev <;> simp [Args.restrict]
+  · have := hopt rfl
+    subst this
+    cases prev <;> cases max <;> cases ext <;> cases eprev <;> simp [Args.restrict]
 
 /-! ### apportionment -/
 
@@ -243,7 +248,7 @@ theorem apportion_eq {app app' : App Sem} (h : AgreeApp app app') (votes n : V) 
   | int k => simp [apportion, apportionLaw]
   | dict d => simp [apportion, apportionLaw]
   | @ev sA A A' hA hs =>
-    cases sA with | mk seats prev max ext =>
+    cases sA with | mk seats prev max ext seatsNeeds =>
     simp at hs; subst hs
     cases n <;> simp [apportion, apportionLaw, constituencyTotals, hA.byHand, Args.restrict]
 
@@ -252,36 +257,43 @@ theorem apportion_eq {app app' : App Sem} (h : AgreeApp app app') (votes n : V) 
 theorem district_eq {sP : Sig} {P P' : Sem} (hP : Agree sP P P') (hs : sP.seats = true)
     (presel : Option V) (dv nd pv mx : V) :
     districtImpl sP.prev sP.max P presel dv nd pv mx = districtLaw P' presel dv nd pv mx := by
-  cases sP with | mk seats prev max ext =>
+  cases sP with | mk seats prev max ext seatsNeeds =>
   simp at hs; subst hs
   simp only [districtImpl, districtLaw, hP.byHand]
   cases prev <;> cases max <;> simp [Args.restrict] <;> rfl
 
-/-- the optional preselector together with the flag `accepts_seats(preselector)` -/
-inductive AgreePre : Option Sem → Option Sem → Bool → Prop
-  | none (b : Bool) : AgreePre Option.none Option.none b
-  | some {sQ : Sig} {Q Q' : Sem} : Agree sQ Q Q' → AgreePre (some Q) (some Q') sQ.seats
+/-- the optional preselector together with the flags `accepts_seats(preselector)`, `seats_optional(preselector)`
+    and the fact `needs` (its seat count is a required argument) -/
+inductive AgreePre : Option Sem → Option Sem → Bool → Bool → Bool → Prop
+  | none (b o n : Bool) : AgreePre Option.none Option.none b o n
+  | some {sQ : Sig} {Q Q' : Sem} (o n : Bool) : Agree sQ Q Q' → (sQ.seats = true → o = !n) →
+      AgreePre (some Q) (some Q') sQ.seats o n
 
 theorem agree_byConstituency {sP : Sig} {P P' : Sem} {app app' : App Sem} {pre pre' : Option Sem}
-    {preSeats : Bool} (hP : Agree sP P P') (hs : sP.seats = true)
-    (happ : AgreeApp app app') (hpre : AgreePre pre pre' preSeats) :
-    Agree allSig (byConstituencyImpl sP.prev sP.max preSeats P app pre) (byConstituencyLaw P' app' pre') := by
+    {preSeats preOpt preNeeds : Bool} (hP : Agree sP P P') (hs : sP.seats = true)
+    (happ : AgreeApp app app') (hpre : AgreePre pre pre' preSeats preOpt preNeeds) :
+    Agree allSig (byConstituencyImpl sP.prev sP.max preSeats preOpt P app pre)
+      (byConstituencyLaw preNeeds P' app' pre') := by
   intro a
   simp only [byConstituencyImpl, byConstituencyLaw, allowedLaw, districtsLaw, assemble, districtResults,
     district_eq hP hs, apportion_eq happ]
   cases hpre with
-  | none b => simp [Args.restrict, allSig, Args.noExt] <;> rfl
-  | @some sQ Q Q' hQ =>
+  | none b o n => simp [Args.restrict, allSig, Args.noExt] <;> rfl
+  | @some sQ Q Q' o n hQ hopt =>
     simp only [hQ.byHand]
-    cases sQ with | mk seats prev max ext =>
-    cases seats <;> simp [Args.restrict, allSig, Args.noExt] <;> rfl
+    cases sQ with | mk seats prev max ext qneeds =>
+    cases seats
+    · simp [Args.restrict, allSig, Args.noExt] <;> rfl
+    · have := hopt rfl
+      subst this
+      simp [Args.restrict, allSig, Args.noExt] <;> rfl
 
 theorem agree_preApportioned {sP : Sig} {P P' : Sem} {app app' : App Sem}
     (hP : Agree sP P P') (hs : sP.seats = true) (hp : sP.prev = true) (hm : sP.max = true)
     (happ : AgreeApp app app') :
     Agree allSig (preApportionedImpl P app) (preApportionedLaw P' app') := by
   intro a
-  cases sP with | mk seats prev max ext =>
+  cases sP with | mk seats prev max ext seatsNeeds =>
   simp at hs hp hm; subst hs; subst hp; subst hm
   simp [preApportionedImpl, preApportionedLaw, apportion_eq happ, hP.byHand, Args.restrict, allSig, Args.noExt]
 
@@ -289,37 +301,46 @@ theorem agree_removedApportionment {sP : Sig} {P P' : Sem}
     (hP : Agree sP P P') (hs : sP.seats = true) (hp : sP.prev = true) (hm : sP.max = true) :
     Agree allSig (removedApportionmentImpl P) (removedApportionmentLaw P') := by
   intro a
-  cases sP with | mk seats prev max ext =>
+  cases sP with | mk seats prev max ext seatsNeeds =>
   simp at hs hp hm; subst hs; subst hp; subst hm
   simp [removedApportionmentImpl, removedApportionmentLaw, hP.byHand, Args.restrict, allSig, Args.noExt]
 
-theorem agree_byParty {sO sA : Sig} {O O' A A' : Sem} (hO : Agree sO O O') (hA : Agree sA A A')
+theorem agree_byParty {sO sA : Sig} {O O' A A' : Sem} (needs oOpt : Bool) (hO : Agree sO O O') (hA : Agree sA A A')
+    (hopt : sO.seats = true → oOpt = !needs)
     (hsa : sA.seats = true) (hp : sA.prev = true) (hm : sA.max = true) :
-    Agree allSig (byPartyImpl sO.seats sA.prev sA.max O A) (byPartyLaw O' A') := by
+    Agree allSig (byPartyImpl sO.seats oOpt sA.prev sA.max O A) (byPartyLaw needs O' A') := by
   intro a
-  cases sO with | mk oseats oprev omax oext =>
-  cases sA with | mk seats prev max ext =>
+  cases sO with | mk oseats oprev omax oext oneeds =>
+  cases sA with | mk seats prev max ext aneeds =>
   simp at hsa hp hm; subst hsa; subst hp; subst hm
   simp only [byPartyImpl, byPartyLaw, hO.byHand, hA.byHand]
-  cases oseats <;> simp [Args.restrict, allSig, Args.noExt]
+  cases oseats
+  · simp [Args.restrict, allSig, Args.noExt]
+  · have := hopt rfl
+    subst this
+    simp [Args.restrict, allSig, Args.noExt]
 
 /-- ByParty for an allocator that takes only part of (prev_gains, max_seats): wrapper = composition on every
     call whose `prev_gains` / `max_seats` have a column for every party (nested dicts: always) -/
-theorem byParty_eq_of_columns {sO sA : Sig} {O O' A A' : Sem} (hO : Agree sO O O') (hA : Agree sA A A')
+theorem byParty_eq_of_columns {sO sA : Sig} {O O' A A' : Sem} (needs oOpt : Bool)
+    (hO : Agree sO O O') (hA : Agree sA A A') (hopt : sO.seats = true → oOpt = !needs)
     (hsa : sA.seats = true) (a : Args)
     (hp : ∀ k, ∃ x, partyColumn (a.prev.getD (.dict [])) k = .ok x)
     (hm : ∀ k, ∃ x, partyColumn (a.max.getD (.dict [])) k = .ok x) :
-    byPartyImpl sO.seats sA.prev sA.max O A (a.restrict allSig) = byPartyLaw O' A' a := by
-  cases sO with | mk oseats oprev omax oext =>
-  cases sA with | mk seats prev max ext =>
+    byPartyImpl sO.seats oOpt sA.prev sA.max O A (a.restrict allSig) = byPartyLaw needs O' A' a := by
+  cases sO with | mk oseats oprev omax oext oneeds =>
+  cases sA with | mk seats prev max ext aneeds =>
   simp at hsa; subst hsa
   obtain ⟨f, hf⟩ : ∃ f : Key → V, ∀ k, partyColumn (a.prev.getD (.dict [])) k = .ok (f k) :=
     ⟨fun k => Classical.choose (hp k), fun k => Classical.choose_spec (hp k)⟩
   obtain ⟨g, hg⟩ : ∃ g : Key → V, ∀ k, partyColumn (a.max.getD (.dict [])) k = .ok (g k) :=
     ⟨fun k => Classical.choose (hm k), fun k => Classical.choose_spec (hm k)⟩
   simp only [byPartyImpl, byPartyLaw, hO.byHand, hA.byHand]
-  cases oseats <;> cases prev <;> cases max <;>
-    simp [Args.restrict, allSig, Args.noExt, hf, hg]
+  cases oseats
+  · cases prev <;> cases max <;> simp [Args.restrict, allSig, Args.noExt, hf, hg]
+  · have := hopt rfl
+    subst this
+    cases prev <;> cases max <;> simp [Args.restrict, allSig, Args.noExt, hf, hg]
 
 /-- a dict of dicts has a column for every party -/
 theorem partyColumn_ok_of_nested (g : D) (h : ∀ p ∈ g, ∃ d, p.2 = V.dict d) (k : Key) :
@@ -372,7 +393,7 @@ theorem multistageLoop_eq {Ps Ps' : List Sem} (h : AgreeStages true Ps Ps') (dep
     | nil => simp [multistageLoop, chainStages]
     | cons v vs =>
       obtain ⟨hp, hm⟩ := hg rfl
-      cases s with | mk seats prev max ext =>
+      cases s with | mk seats prev max ext seatsNeeds =>
       simp at hs hp hm; subst hs; subst hp; subst hm
       simp [multistageLoop, chainStages, hP.byHand, Args.restrict, ih]
 
@@ -392,7 +413,7 @@ theorem zipQuotas_agree {Ps Ps' : List Sem} (h : AgreeStages false Ps Ps') (dept
     cases qs with
     | nil => simp [zipQuotas, unusedLoop, chainUnused]
     | cons q qs =>
-      cases s with | mk seats prev max ext =>
+      cases s with | mk seats prev max ext seatsNeeds =>
       simp at hs; subst hs
       cases q <;> simp [zipQuotas, unusedLoop, chainUnused, hP.byHand, Args.restrict, ih]
 
@@ -409,7 +430,7 @@ theorem agree_partyList {sP : Sig} {P P' : Sem} (hP : Agree sP P P') (hs : sP.se
     Agree { seats := true, prev := sP.prev, max := sP.max, ext := true }
       (partyListImpl P le conv) (partyListLaw P' le conv) := by
   intro a
-  cases sP with | mk seats prev max ext =>
+  cases sP with | mk seats prev max ext seatsNeeds =>
   simp at hs; subst hs
   simp only [partyListImpl, partyListLaw, hP.byHand]
   cases prev <;> cases max <;> simp [Args.restrict] <;> rfl
@@ -429,7 +450,7 @@ theorem collectDist_noTie (d : D) (h : d.any (fun p => keyIsTie p.1) = false) : 
 theorem agree_tieBreaking {sM sT : Sig} {M M' T T' : Sem} (hM : Agree sM M M') (hT : Agree sT T T')
     (hs : sT.seats = true) : Agree sM (tieBreakingImpl M T) (tieBreakingLaw M' T') := by
   intro a
-  cases sT with | mk seats prev max ext =>
+  cases sT with | mk seats prev max ext seatsNeeds =>
   simp at hs; subst hs
   simp only [tieBreakingImpl, tieBreakingLaw, ← hM a]
   cases hr : M (a.restrict sM) with
@@ -552,6 +573,28 @@ theorem acceptsMaxSeats_faithful : ∀ (e : Ev), acceptsMaxSeats e = (takes e).m
   | .multistage _ _ => by simp [acceptsMaxSeats, takes, allSig]
   | .unusedVotes _ _ _ => by simp [acceptsMaxSeats, takes, allSig]
 
+/-- `seats_optional` is the truth wherever it is consulted (the tree takes a seat count): the seat count can
+    be omitted exactly when it is not a required argument -/
+theorem seatsOptional_faithful : ∀ (e : Ev), (takes e).seats = true → seatsOptional e = !needsSeats e
+  | .leaf sig _, h => by simp only [takes] at h; simp [seatsOptional, needsSeats, h]
+  | .fixedSeatCount _ _, h => by simp [takes] at h
+  | .tieBreaking m _, h => by
+      simp only [takes] at h; simp [seatsOptional, needsSeats, seatsOptional_faithful m h]
+  | .preConverted _ e, h => by
+      simp only [takes] at h; simp [seatsOptional, needsSeats, seatsOptional_faithful e h]
+  | .postConverted e _, h => by
+      simp only [takes] at h; simp [seatsOptional, needsSeats, seatsOptional_faithful e h]
+  | .votingSystem e, h => by
+      simp only [takes] at h; simp [seatsOptional, needsSeats, seatsOptional_faithful e h]
+  | .conditioned _ _ _, _ => by simp [seatsOptional, needsSeats]
+  | .byConstituency _ _ _, _ => by simp [seatsOptional, needsSeats]
+  | .preApportioned _ _, _ => by simp [seatsOptional, needsSeats]
+  | .removedApportionment _, _ => by simp [seatsOptional, needsSeats]
+  | .byParty _ _, _ => by simp [seatsOptional, needsSeats]
+  | .multistage _ _, _ => by simp [seatsOptional, needsSeats]
+  | .unusedVotes _ _ _, _ => by simp [seatsOptional, needsSeats]
+  | .partyList _ _ _, _ => by simp [seatsOptional, needsSeats]
+
 def appMap (f : Ev → Sem) : App Ev → App Sem
   | .none => .none
   | .int k => .int k
@@ -562,12 +605,14 @@ theorem eval_byConstituency (e : Ev) (app : App Ev) (pre : Option Ev) :
     eval (.byConstituency e app pre) =
       byConstituencyImpl (acceptsPrevGains e) (acceptsMaxSeats e)
         (match pre with | some p => acceptsSeats p | Option.none => false)
+        (match pre with | some p => seatsOptional p | Option.none => true)
         (eval e) (appMap eval app) (pre.map eval) := by
   cases app <;> cases pre <;> simp [eval, appMap]
 
 theorem denote_byConstituency (e : Ev) (app : App Ev) (pre : Option Ev) :
     denote (.byConstituency e app pre) =
-      byConstituencyLaw (denote e) (appMap denote app) (pre.map denote) := by
+      byConstituencyLaw (match pre with | some p => needsSeats p | Option.none => false)
+        (denote e) (appMap denote app) (pre.map denote) := by
   cases app <;> cases pre <;> simp [denote, appMap]
 
 theorem eval_preApportioned (e : Ev) (app : App Ev) :
@@ -591,7 +636,8 @@ theorem agree_tree : ∀ (t : Ev), WellFormed t = true → Agree (takes t) (eval
   | .conditioned elim e depth, h => by
       simp only [WellFormed, Bool.and_eq_true] at h
       simp only [eval, denote, takes, acceptsPrevGains_faithful, acceptsSeats_faithful]
-      exact agree_conditioned depth (agree_tree elim h.1) (agree_tree e h.2)
+      exact agree_conditioned depth (needsSeats e) (seatsOptional e) (agree_tree elim h.1) (agree_tree e h.2)
+        (seatsOptional_faithful e)
   | .preConverted c e, h => by
       simp only [WellFormed] at h
       simpa [eval, denote, takes] using agree_preConverted c.run (agree_tree e h)
@@ -616,11 +662,11 @@ theorem agree_tree : ∀ (t : Ev), WellFormed t = true → Agree (takes t) (eval
           simp at happ
           exact .ev (agree_tree ap happ.1) happ.2
       · cases pre with
-        | none => exact .none _
+        | none => exact .none _ _ _
         | some p =>
           simp at hpre
           simp only [acceptsSeats_faithful, Option.map]
-          exact .some (agree_tree p hpre)
+          exact .some _ _ (agree_tree p hpre) (seatsOptional_faithful p)
   | .preApportioned e app, h => by
       unfold WellFormed at h
       simp only [takesAll, Bool.and_eq_true] at h
@@ -645,12 +691,14 @@ theorem agree_tree : ∀ (t : Ev), WellFormed t = true → Agree (takes t) (eval
         simp only [WellFormed, takesAll, Bool.and_eq_true] at h
         obtain ⟨hwo, hwa, ⟨hsa, hpa⟩, hma⟩ := h
         simp only [eval, denote, takes, acceptsPrevGains_faithful, acceptsSeats_faithful, acceptsMaxSeats_faithful]
-        exact agree_byParty (agree_tree overall hwo) (agree_tree al hwa) hsa hpa hma
+        exact agree_byParty (needsSeats overall) (seatsOptional overall) (agree_tree overall hwo) (agree_tree al hwa)
+          (seatsOptional_faithful overall) hsa hpa hma
       | none =>
         simp only [WellFormed, takesAll, Bool.and_eq_true] at h
         obtain ⟨hwo, ⟨hso, hpo⟩, hmo⟩ := h
         simp only [eval, denote, takes, acceptsPrevGains_faithful, acceptsSeats_faithful, acceptsMaxSeats_faithful]
-        exact agree_byParty (agree_tree overall hwo) (agree_tree overall hwo) hso hpo hmo
+        exact agree_byParty (needsSeats overall) (seatsOptional overall) (agree_tree overall hwo)
+          (agree_tree overall hwo) (seatsOptional_faithful overall) hso hpo hmo
   | .multistage rounds depth, h => by
       simp only [WellFormed] at h
       simpa [eval, denote, takes] using agree_multistage (agree_stages rounds true h) depth
